@@ -176,6 +176,11 @@ func runCase(f failer, prop string, cfg world.Cfg, params hist.Params, orc oracl
 			failf(f, "step %d %s: %s", i, s, res.Hang.Detail)
 		}
 		mres := x.mr.Do(s)
+		if known := knownOutcome(x, s, res); known != "" {
+			// a listed finding struck by chance (not steerable): the case ends here, counted
+			live.S.Exclude(known)
+			break
+		}
 		x.classify(s, res, mres)
 		if msg := orc.After(x, s, res, mres); msg != "" {
 			failf(f, "after step %d %s (err=%v):\n%s", i, s, res.Err, msg)
